@@ -154,6 +154,20 @@ PROPS['C07'] = dict(
     explanation='The FSM spec is the model; theorems: one-way status along every history, Start/Stop succeed at most once, answers after stop, cancel = stop; tie: exhaustive sequential histories + concurrent pairs + census on the real system.',
 )
 
+FUT_T = "k0>exit k0>k1 k1>k2 k2>k3 k3>k4 k4>k5 k5>exit p0>exit p0>p1w p1w>p1 p1>exit w0>exit".split()
+PROPS['C04'] = dict(
+    modules=['Vivid.Props.C04'],
+    gens=[],
+    engines=[dict(name='future', must_hit=['t:' + t for t in FUT_T] + ['variant:fixed'])],
+    rule='future: the real future.Future under the fine baton (every statement of close() and PipeTo and the blocking receive of Result are scheduling points). Thread sets of completers (reply / error / timeout-Close), '
+         'PipeTo callers (one forwarder each) and Result waiters: the finding\'s own replay, exhaustive DFS over six small sets (budgeted), seeded random schedules of 2-7 threads; after every step closed / done / registered forwarders / '
+         'forwarders told (final vs unwritten result) / closer runs / program point of every goroutine are compared with the model. Every case is a distinct schedule.',
+    trusted_base=COMMON_TRUST + ['baton scheduler + yield placement in future.go', 'the forwarder mutex section of PipeTo/close is atomic (sync.Mutex)'],
+    assumptions=['one future at a time; the ask-level registry (appendFuture / removeFuture / asker death / timers) is observed through the closer callback count only — timer-vs-registration and asker-death are not modelled (partial)',
+                 'reply routing by uuid-fresh agent path is assumed (uuid uniqueness)'],
+    explanation='Inductive invariant over a counter-abstracted LTS of close/PipeTo/Result with unboundedly many threads: one CAS winner, closer once, done implies written, forwarder conservation; at quiescence every forwarder told the final result exactly once (repaired PipeTo) and a 4-step witness for the code as found.',
+)
+
 # Text of level_claimed per property (MANIFEST); NOT_APPLICABLE: properties not claimed, with reason.
 LEVEL_TEXT = {}
 NOT_APPLICABLE = {}
